@@ -270,6 +270,18 @@ Theorem C20_accept_conserving n data dens :
 Proof. exact (accept_conserving n data dens). Qed.
 Print Assumptions C20_accept_conserving.
 
+Theorem C20_X_reuse_history_independent n data densities k :
+  (k < List.length densities)%nat ->
+  nth k (X_reuse_ok n data densities) Accept = X_apply_ok n data (nth k densities []).
+Proof. exact (X_reuse_history_independent n data densities k). Qed.
+Print Assumptions C20_X_reuse_history_independent.
+
+Theorem C20_reject_not_conserving_after_reuse n data before dens after i :
+  List.length dens = n -> (i < n)%nat -> close0 (rowdot data n dens i) = false ->
+  nth (List.length before) (X_reuse_ok n data (before ++ dens :: after)) Accept = Reject RuntimeError.
+Proof. exact (reject_not_conserving_after_reuse n data before dens after i). Qed.
+Print Assumptions C20_reject_not_conserving_after_reuse.
+
 (* ------------------------------------------------------------------ 11. diffusion *)
 Theorem C20_reject_D_vector t n k : D_shape_ok t [n] k = Reject ValueError.
 Proof. exact (reject_D_vector t n k). Qed.
